@@ -529,6 +529,8 @@ var all = []*Codec{
 		// no payload header at all, but the DECODER recognises the start of a unit
 		// by the 4-byte key prefix 06 0e 2b 34: with less in the first packet every
 		// packet is answered with ErrNonStartingPacketAndNoPrevious
+		// 1 MiB: the decoder's maxUnitSize (unexported; added by the fix for unbounded accumulation)
+		MaxFrameSize:  1 << 20,
 		MinPayloadMax: 4, UnitAlign: 1, PayloadType: pt,
 		NewEncoder: func(pms int, seq uint16, ssrc uint32) (Encoder, error) {
 			return newEncS(&rtpklv.Encoder{
